@@ -401,7 +401,7 @@ namespace sw { namespace universal {
 				return !operator==(lhs, rhs);
 			}
 			inline bool operator< (const posit<NBITS_IS_3, ES_IS_1>& lhs, const posit<NBITS_IS_3, ES_IS_1>& rhs) {
-				return lhs._bits < rhs._bits;
+				return int8_t(lhs._bits << 5) < int8_t(rhs._bits << 5); // posits are ordered as signed integers
 			}
 			inline bool operator> (const posit<NBITS_IS_3, ES_IS_1>& lhs, const posit<NBITS_IS_3, ES_IS_1>& rhs) {
 				return operator< (rhs, lhs);
